@@ -69,12 +69,12 @@ func Targets() []Target {
 		// sdf2.go: Evaluate methods
 		"sdfBox2d", "CircleSDF2.Evaluate", "BoxSDF2.Evaluate", "LineSDF2.Evaluate", "OffsetSDF2.Evaluate",
 		"IntersectionSDF2.Evaluate", "DifferenceSDF2.Evaluate", "CutSDF2.Evaluate", "TransformSDF2.Evaluate",
-		"ScaleUniformSDF2.Evaluate", "ElongateSDF2.Evaluate",
+		"ScaleUniformSDF2.Evaluate", "ElongateSDF2.Evaluate", "RotateCopySDF2.Evaluate", "SliceSDF2.Evaluate",
 		// sdf3.go: Evaluate methods
 		"sdfBox3d", "SphereSDF3.Evaluate", "BoxSDF3.Evaluate", "CylinderSDF3.Evaluate", "ConeSDF3.Evaluate",
 		"SorSDF3.Evaluate", "ExtrudeSDF3.Evaluate", "ExtrudeRoundedSDF3.Evaluate", "LoftSDF3.Evaluate",
 		"TransformSDF3.Evaluate", "ScaleUniformSDF3.Evaluate", "DifferenceSDF3.Evaluate", "IntersectionSDF3.Evaluate",
-		"ElongateSDF3.Evaluate", "CutSDF3.Evaluate", "OffsetSDF3.Evaluate", "ShellSDF3.Evaluate",
+		"ElongateSDF3.Evaluate", "CutSDF3.Evaluate", "OffsetSDF3.Evaluate", "ShellSDF3.Evaluate", "RotateCopySDF3.Evaluate",
 		// constructors (loop-free ones)
 		"Circle2D", "Box2D", "Line2D", "Offset2D", "Intersect2D", "Difference2D", "Cut2D", "Transform2D",
 		"ScaleUniform2D", "Elongate2D",
@@ -106,6 +106,7 @@ const (
 	kM44
 	kBox2
 	kBox3
+	kP2 // p2.Vec{R, Theta}: a pair
 	kBool
 	kList   // args[0] = element
 	kFn     // args -> ret
@@ -129,6 +130,7 @@ var (
 	tBox2 = typ{k: kBox2}
 	tBox3 = typ{k: kBox3}
 	tBool = typ{k: kBool}
+	tP2   = typ{k: kP2}
 )
 
 func fnType(ret typ, args ...typ) typ { return typ{k: kFn, args: args, ret: &ret} }
@@ -158,6 +160,8 @@ func (t typ) coq() string {
 		return "Box2 O"
 	case kBox3:
 		return "Box3 O"
+	case kP2:
+		return "(T O * T O)%type"
 	case kBool:
 		return "bool"
 	case kList:
@@ -194,6 +198,8 @@ func (t typ) goName() string {
 		return "Box2"
 	case kBox3:
 		return "Box3"
+	case kP2:
+		return "p2.Vec"
 	case kBool:
 		return "bool"
 	case kList:
@@ -362,7 +368,7 @@ var reserved = map[string]bool{}
 
 func init() {
 	for _, w := range strings.Fields(`O T V2 V3 Box2 Box3 mkV2 mkV3 mkBox2 mkBox3 vx vy wx wy wz b2min b2max b3min b3max
-		o0 o1 two half cst sq ofZ negb andb orb bool list nth option Some None fst snd
+		o0 o1 two half cst sq ofZ negb andb orb bool list nth option Some None fst snd pair
 		oadd osub omul odiv oneg oabs osqrt oltb oleb oeqb omin omax otoZ ofloor oceil ofmod osin ocos otan oatan oatan2 oacos
 		opi omaxf true false
 		as at cofix else end exists exists2 fix for forall fun if IF in let match mod Prop return Set then Type using where with
@@ -540,9 +546,9 @@ func isMinMax(st *ast.StructType) bool {
 
 func (g *gen) namedType(p *pkg, name string) (typ, error) {
 	switch {
-	case (p.name == "v2" || p.name == "v3") && name == "Vec":
+	case (p.name == "v2" || p.name == "v3" || p.name == "p2") && name == "Vec":
 		st, ok := p.structs["Vec"]
-		want := map[string]string{"v2": "X Y", "v3": "X Y Z"}[p.name]
+		want := map[string]string{"v2": "X Y", "v3": "X Y Z", "p2": "R Theta"}[p.name]
 		var names []string
 		if ok {
 			for _, fl := range st.Fields.List {
@@ -554,10 +560,7 @@ func (g *gen) namedType(p *pkg, name string) (typ, error) {
 		if strings.Join(names, " ") != want {
 			return typ{}, fmt.Errorf("%s.Vec is not struct{%s float64} any more", p.name, want)
 		}
-		if p.name == "v2" {
-			return tV2, nil
-		}
-		return tV3, nil
+		return map[string]typ{"v2": tV2, "v3": tV3, "p2": tP2}[p.name], nil
 	case p.name == "sdf" && name == "M22":
 		return tM22, nil
 	case p.name == "sdf" && name == "M33":
@@ -729,6 +732,8 @@ func (f *fctx) field(n ast.Node, x val, name string) (val, error) {
 	case kBox3:
 		acc, ok = map[string]string{"Min": "b3min", "Max": "b3max"}[name]
 		rt = tV3
+	case kP2:
+		acc, ok = map[string]string{"R": "fst", "Theta": "snd"}[name]
 	}
 	if !ok {
 		return val{}, f.errf(n, "field .%s of %s", name, x.t.goName())
@@ -983,7 +988,7 @@ func (f *fctx) composite(x *ast.CompositeLit, implied *typ, e env) (val, error) 
 		mk string
 		n  int
 		el typ
-	}{kV2: {"mkV2", 2, tT}, kV3: {"mkV3", 3, tT}, kBox2: {"mkBox2", 2, tV2}, kBox3: {"mkBox3", 2, tV3}}[t.k]
+	}{kV2: {"mkV2", 2, tT}, kV3: {"mkV3", 3, tT}, kBox2: {"mkBox2", 2, tV2}, kBox3: {"mkBox3", 2, tV3}, kP2: {"pair", 2, tT}}[t.k]
 	if !ok {
 		return val{}, f.errf(x, "composite literal of %s", t.goName())
 	}
@@ -2000,6 +2005,8 @@ func Translate(repo string) (*Result, error) {
 	}{
 		{"v2", modPath + "vec/v2", []string{"vec/v2/v2.go"}},
 		{"v3", modPath + "vec/v3", []string{"vec/v3/v3.go"}},
+		{"p2", modPath + "vec/p2", []string{"vec/p2/p2.go"}},
+		{"conv", modPath + "vec/conv", []string{"vec/conv/conv.go"}},
 		{"sdf", modPath + "sdf", []string{"sdf/utils.go", "sdf/sdf2.go", "sdf/sdf3.go", "sdf/box2.go", "sdf/box3.go", "sdf/matrix.go"}},
 	} {
 		p, err := loadPkg(g.fset, repo, s.name, s.path, s.files...)
@@ -2025,7 +2032,7 @@ func Translate(repo string) (*Result, error) {
 		}
 	}
 	var b strings.Builder
-	b.WriteString("(* GENERATED by harness/sdfgen from vec/v2/v2.go, vec/v3/v3.go, sdf/utils.go, sdf/sdf2.go, sdf/sdf3.go,\n")
+	b.WriteString("(* GENERATED by harness/sdfgen from vec/v2/v2.go, vec/v3/v3.go, vec/conv/conv.go, sdf/utils.go, sdf/sdf2.go, sdf/sdf3.go,\n")
 	b.WriteString("   sdf/box2.go, sdf/box3.go, sdf/matrix.go (MulBox) of the current source tree - do not edit.\n")
 	b.WriteString("   One definition per Go function, one `let` per Go statement; receiver fields s.f are the\n")
 	b.WriteString("   parameters s_f; a wrapped SDF is its Evaluate function (in constructors: plus its bounding box\n")
